@@ -121,9 +121,18 @@ def _long_chains(tier):
             yield dict(n=c3[-1] + 1, pairs=sorted(pairs + [[i, j] for i, j in zip(c5, reversed(c3))]), long=P)
 
 
+def _long_stems(tier):
+    """Crossing stems of 100-300 base pairs each (more than 256 bracket characters of one kind): H-type knots and three kissing stems."""
+    for la, lb in ((150, 140), (140, 150), (300, 2), (2, 300)) + (() if tier == "quick" else ((257, 257), (129, 128))):
+        yield {**enum2d.chord_structure(((0, 2), (1, 3)), [la, lb], [1] * 5), "longstems": [la, lb]}
+    for lens in ((90, 100, 110), (130, 1, 130)):
+        yield {**enum2d.chord_structure(((0, 2), (1, 4), (3, 5)), list(lens), [2] * 7), "longstems": list(lens)}
+
+
 def families(tier):
     q = tier == "quick"
     fams = [
+        ("long-stems", lambda: _long_stems(tier), 1),
         ("long-chains", lambda: _long_chains(tier), 1),
         ("after-calls", lambda: _after_calls(tier), 1),
         ("many-stems", lambda: _many_stems(tier), 1),
